@@ -157,6 +157,10 @@ def gen_op(rng, z, malformed):
         rf = z.center_freq if ref is None else ref
         dtop = dm.sample_delay(z.max_freq, rf, z.sample_rate)
         dbot = dm.sample_delay(z.min_freq, rf, z.sample_rate)
+        if not (math.isfinite(float(dtop)) and math.isfinite(float(dbot))):
+            # a band edge at 0 Hz: the delay is infinite and the library's own crop arithmetic raises OverflowError - outside the
+            # property (no finite crop exists); a plain full slice is recorded instead
+            return 'slice_full', '(OSlice None None None)', (lambda: z[:]), dict(note='band reaches 0 Hz: dedispersion skipped')
         start = math.ceil(-min(0, dtop, dbot))
         stop = n - math.ceil(+max(0, dtop, dbot))
 
